@@ -902,6 +902,21 @@ func doCall(c *wire.Case, call *wire.Call, slots []*progSlot, shared bool) {
 			ms[i].Filename = "text"
 		}
 		call.Digest = "m:" + digestMatches(ms)
+	case "runfiles-new":
+		// the shared program over the call's OWN file, replace mode NEW: reader and writer are both open for a while
+		v := slots[call.Prog].v
+		path := callOwnFiles[call.Own]
+		if v == nil || path == "" {
+			call.Err = "not compiled / no file"
+			call.Digest = "err:nc"
+			return
+		}
+		ms := v.RunFiles([]string{path}, engine.NEW, false)
+		for i := range ms {
+			ms[i].Filename = "text"
+		}
+		out, _ := os.ReadFile(path + ".vored")
+		call.Digest = "m:" + digestMatches(ms) + " o:" + hashStr(string(out))
 	case "run+json":
 		// run the shared program and render the result list both ways
 		v := slots[call.Prog].v
@@ -918,11 +933,15 @@ func doCall(c *wire.Case, call *wire.Call, slots []*progSlot, shared bool) {
 // callFiles: text index -> file holding that text, for calls of kind "runfiles"
 var callFiles = map[int]string{}
 
+// callOwnFiles: Own number -> the call's own copy of its text, for calls of kind "runfiles-new"
+var callOwnFiles = map[int]string{}
+
 func prepareCallFiles(c *wire.Case) func() {
 	callFiles = map[int]string{}
+	callOwnFiles = map[int]string{}
 	need := false
 	for _, cl := range c.Calls {
-		if cl.Kind == "runfiles" {
+		if cl.Kind == "runfiles" || cl.Kind == "runfiles-new" {
 			need = true
 		}
 	}
@@ -938,6 +957,14 @@ func prepareCallFiles(c *wire.Case) func() {
 			p := filepath.Join(dir, fmt.Sprintf("t%d.txt", cl.Text))
 			if os.WriteFile(p, c.Texts[cl.Text], 0o644) == nil {
 				callFiles[cl.Text] = p
+			}
+		}
+	}
+	for _, cl := range c.Calls {
+		if cl.Kind == "runfiles-new" && cl.Text < len(c.Texts) {
+			p := filepath.Join(dir, fmt.Sprintf("own%d.txt", cl.Own))
+			if os.WriteFile(p, c.Texts[cl.Text], 0o644) == nil {
+				callOwnFiles[cl.Own] = p
 			}
 		}
 	}
